@@ -39,14 +39,20 @@ type C09Case struct {
 	// Swap: the reader lives in namespace b and the foreign object in a (backends and userlists are built in
 	// name order, so which namespace sorts first decides who creates a shared derived object).
 	Swap bool `json:"swap,omitempty"`
+	// Similar: the two namespaces are named "a" and "ab" - one name is the beginning of the other (app / app-prod)
+	Similar bool `json:"similar,omitempty"`
 }
 
 // namespaces of the referencing object (reader) and of the foreign object (owner)
 func (c C09Case) nss() (reader, owner string) {
-	if c.Swap {
-		return "b", "a"
+	other := "b"
+	if c.Similar {
+		other = "ab"
 	}
-	return "a", "b"
+	if c.Swap {
+		return other, "a"
+	}
+	return "a", other
 }
 
 var c09Sites = []string{"auth-tls-secret", "secure-crt-secret", "secure-verify-ca-secret", "auth-secret", "auth-url", "tls-secret", "gateway-certref", "gateway-backendref"}
@@ -104,6 +110,7 @@ func genC09(t *rapid.T) C09Case {
 	c.Touch = chanceT(t, "touch", 30)
 	c.OwnerFirst = rapid.Bool().Draw(t, "ownerfirst")
 	c.Swap = chanceT(t, "swap", 40)
+	c.Similar = chanceT(t, "similar", 25)
 	if c.Relation == "R1" {
 		c.BUses = false // the foreign object must be otherwise unused to be removable
 	}
@@ -139,7 +146,7 @@ func c09World(c C09Case, variant string) []*world.Obj {
 		{Kind: world.KIngressClass, Name: world.OurClass, Controller: world.ControllerName},
 		c09ConfigMap(first),
 	}
-	for _, ns := range []string{"a", "b"} {
+	for _, ns := range []string{rd, ow} {
 		for _, svc := range []string{"s1", "s2"} {
 			objs = append(objs,
 				&world.Obj{Kind: world.KService, NS: ns, Name: svc, Ports: []world.SvcPort{{Name: "http", Port: 80, Target: "8000"}}},
